@@ -10,7 +10,8 @@ CTX_DTOR = fl("ctx_dtor", "ctx.c")
 PS_MSG_DTOR = fl("ps_msg_dtor", "ps.c")
 SUB_DTOR = fl("subscribtions_dtor", "ps.c")
 SRC_DTOR = fl("src_priv_dtor", "src.c")
-ALL_MEM_DTORS = [EVT_DTOR, MODULE_DTOR, CTX_DTOR, PS_MSG_DTOR, SUB_DTOR, SRC_DTOR]
+PS_DATA_DTOR = fl("ps_data_dtor", "ps.c")
+ALL_MEM_DTORS = [EVT_DTOR, MODULE_DTOR, CTX_DTOR, PS_MSG_DTOR, SUB_DTOR, SRC_DTOR, PS_DATA_DTOR]
 SRC_CMPS = [fl(n, "src.c") for n in ("fdcmp", "tmrcmp", "sgncmp", "pathcmp", "pidcmp", "taskcmp", "threshcmp")]
 SRC_PROCS = [fl(n, "src.c") for n in ("process_ps", "process_fd", "process_tmr", "process_sgn", "process_path",
                                       "process_pid", "process_task", "process_thresh")]
